@@ -184,6 +184,69 @@ def mentions(t, pred):
     return False
 
 
+def normalize(t):
+    """Rebuild a term bottom-up through mk_op (restores commutative ordering after renaming)."""
+    if not isinstance(t, tuple) or not t:
+        return t
+    if t[0] == "op" and len(t) == 4:
+        return mk_op(t[1], normalize(t[2]), normalize(t[3]))
+    return tuple(normalize(x) if isinstance(x, tuple) else x for x in t)
+
+
+def rename_vars(t, ren, fields=None):
+    """Rename variables by base id (ren: id -> name) and optionally whole field terms
+    (fields: (field name) -> replacement term); result is normalized."""
+    def r(t):
+        if not isinstance(t, tuple) or not t:
+            return t
+        if t[0] == "var":
+            base = str(t[2]).split("#")[0]
+            return ("var", ren.get(base, t[1]))
+        if fields and t[0] == "field" and t[2] in fields:
+            return fields[t[2]]
+        return tuple(r(x) if isinstance(x, tuple) else x for x in t)
+    return normalize(r(t))
+
+
+def param_names(body):
+    ren = {}
+    for p in body.params:
+        if p.get("k") == "PBind":
+            ren[str(p["id"])] = p["name"]
+    return ren
+
+
+def rewrite_term(t, old, new):
+    if t == old:
+        return new
+    if not isinstance(t, tuple):
+        return t
+    changed = False
+    out = []
+    for x in t:
+        if isinstance(x, tuple):
+            y = rewrite_term(x, old, new)
+            if y is not x:
+                changed = True
+            out.append(y)
+        else:
+            out.append(x)
+    return tuple(out) if changed else t
+
+
+def rewrite_atom(a, old, new):
+    if a[0] in ("le", "ne"):
+        A = rewrite_term(a[1], old, new)
+        B = rewrite_term(a[2], old, new)
+        if A is a[1] and B is a[2]:
+            return a
+        # re-linearise (the rewritten side may expose offsets)
+        return (a[0], A, B, a[3])
+    if a[0] == "b":
+        return ("b", rewrite_term(a[1], old, new), a[2])
+    return a
+
+
 def subterms(t):
     yield t
     if isinstance(t, tuple):
@@ -611,10 +674,8 @@ class Walker:
             if t[0] != "var" and x[0] in ("call", "isempty", "callv") and mentions(x, lambda y: y == root):
                 return True
             return False
+        self._snapshot_locals(K, pred)
         K.kill(pred)
-        for lid, tt in list(self.T.env.items()):
-            if mentions(tt, pred):
-                self.havoc_local(lid, "frozen")
 
     def kill_root(self, K, t):
         """A &mut borrow of place t escapes: forget the contents of t (and of places overlapping it)
@@ -636,10 +697,25 @@ class Walker:
             if x[0] in ("call", "isempty", "callv"):
                 return mentions(x, lambda y: y == root)
             return False
+        self._snapshot_locals(K, pred)
         K.kill(pred)
-        for lid, tt in list(self.T.env.items()):
-            if mentions(tt, pred):
-                self.havoc_local(lid, "frozen")
+
+    def _snapshot_locals(self, K, pred):
+        """Locals whose symbolic value mentions a place about to be killed keep their identity:
+        the value is replaced by a fresh variable everywhere (facts and other locals), so facts
+        about the local survive the mutation of the state it was computed from."""
+        items = [(lid, tt) for lid, tt in self.T.env.items() if tt[0] != "var" and mentions(tt, pred)]
+        items.sort(key=lambda x: -len(repr(x[1])))
+        for lid, tt in items:
+            cur = self.T.env.get(lid)
+            if cur is None or cur[0] == "var" or not mentions(cur, pred):
+                continue
+            v = ("var", "snap", "%s#%d" % (lid, next(self.version)))
+            K.atoms = {rewrite_atom(a, cur, v) for a in K.atoms}
+            for l2, t2 in list(self.T.env.items()):
+                if l2 != lid and mentions(t2, lambda x: x == cur):
+                    self.T.env[l2] = rewrite_term(t2, cur, v)
+            self.T.env[lid] = v
 
     def assigned_places(self, n):
         """Field/index places assigned (or &mut-borrowed / mutated through a &mut self call) anywhere inside n."""
@@ -679,12 +755,6 @@ class Walker:
                 self.T.mut_locals.add(p["id"])
             if term is None:
                 self.T.env.pop(p["id"], None)
-            elif not p.get("mut") and self.F.types[p["t"]] in INT_TYPES and self._killable(term):
-                # an integer snapshot of mutable state: keep the local opaque and remember the
-                # equality, so that facts about the local survive later mutation of the state
-                v = ("var", p["name"], p["id"])
-                self.T.env[p["id"]] = v
-                K.add(cmp_atoms("==", v, term))
             else:
                 self.T.env[p["id"]] = term
         elif k == "PTuple" and term is not None and term[0] == "tup" and len(term) - 1 == len(p["ps"]):
